@@ -78,6 +78,7 @@ func init() {
 		func(p *Prog, r *Report) { ruleInflCastFlag(p, r) },
 		ruleTableKeys,
 		func(p *Prog, r *Report) { ruleDecodeSibling(p, r, []string{"mxj.xmlToMapParser"}) },
+		ruleSeqCover, ruleCastParsers,
 		panicRules(grpMapDecode))
 
 	register("C02",
@@ -121,6 +122,7 @@ func init() {
 		nil,
 		ruleTableNoRewrite,
 		func(p *Prog, r *Report) { ruleInflCoverJson(p, r) },
+		ruleJsonDecoder,
 		func(p *Prog, r *Report) {
 			ruleWrapCompose(p, r, []wrapSpec{{"mxj.Map.Copy", []string{"mxj.Map.Json", "mxj.NewMapJson"}, false}})
 		},
@@ -172,6 +174,7 @@ func init() {
 		func(p *Prog, r *Report) {
 			ruleFwdVariadic(p, r, func(n string) bool { return hasPrefixAny(n, "mxj.Map.Leaf") })
 		},
+		func(p *Prog, r *Report) { ruleFwdPure(p, r, "mxj.Map.LeafNodes", "mxj.getLeafNodes") },
 		panicRules(grpLeaf))
 
 	register("C10",
@@ -195,6 +198,7 @@ func init() {
 		nil,
 		func(p *Prog, r *Report) { ruleEffectRecv(p, r, p.named("mxj.Map.NewMap"), "EFFECT.recv") },
 		func(p *Prog, r *Report) { ruleErr(p, r, []string{"mxj.Map.NewMap"}, "NewMap") },
+		ruleNewMapArgs,
 		panicRules(grpProject))
 
 	register("C13",
@@ -202,6 +206,7 @@ func init() {
 		[]string{"io.Reader / io.ByteReader / io.Writer contracts as documented"},
 		func(p *Prog, r *Report) { ruleIORead(p, r, p.PkgFuncs("mxj")) },
 		func(p *Prog, r *Report) { ruleIOByteReader(p, r, p.PkgFuncs("mxj")) },
+		func(p *Prog, r *Report) { ruleIORetry(p, r, p.PkgFuncs("mxj")) },
 		ruleIOTee,
 		func(p *Prog, r *Report) {
 			ruleLoopHandler(p, r, []string{"mxj.HandleXmlReader", "mxj.HandleXmlReaderRaw", "mxj.HandleJsonReader", "mxj.HandleJsonReaderRaw"})
@@ -218,7 +223,7 @@ func init() {
 	register("C14",
 		"Structural clauses of casting: INFL.castflag (the cast flag reaches only cast() and the recursion, so structure cannot depend on it; every cast option is read only on the flag-true path; every return of cast is the identical input string or a successful strconv.Parse* of it), TABLE.naninf (with CastNanInf off all seven spellings strconv.ParseFloat accepts for NaN/Inf are excluded before its result can be returned), cast call-site coverage (attribute, text and simple values of both decoders pass through cast with the decoder's flag). Not decided: that each leaf gets exactly the value its text denotes."+levelNote,
 		[]string{"strconv.ParseFloat documentation (accepted NaN/Inf spellings)"},
-		ruleInflCastFlag, ruleTableNanInf, ruleInflCover)
+		ruleInflCastFlag, ruleTableNanInf, ruleInflCover, ruleCastParsers)
 
 	register("C15",
 		"Panic-obligation discharge over every core function reachable from the decoders, the string-argument APIs and the encoders: PANIC.idx (every index/slice operation is either proven in range by the Go compiler's prove pass or discharged by the zone analysis / a structural rule), PANIC.assert (every single-value type assertion has an operand whose dynamic type set is within the asserted type), PANIC.nil (nil map writes, nil dereferences of module results, method calls on nil errors, calls of nil function variables), PANIC.explicit, and ERR.path on the decoders. Not decided: stack exhaustion on deeply nested input, panics inside the standard library on well-typed arguments, termination of the bulk handlers, 'fails exactly when the tokenizer rejects'."+levelNote,
